@@ -176,8 +176,9 @@ def main(argv):
     if len(obligations) < expected_n:
         undecided.append(f"obligation count {len(obligations)} below the recorded minimum {expected_n} (lost contract?)")
 
-    must = {o: i for o, i in obligations.items() if not i.get("known")}
-    expfail = {o: i for o, i in obligations.items() if i.get("known")}
+    # a clause tagged with a finding is expected to fail only while that finding is OPEN; once fixed it must hold
+    must = {o: i for o, i in obligations.items() if not (i.get("known") and i.get("known") in known_open)}
+    expfail = {o: i for o, i in obligations.items() if i.get("known") and i.get("known") in known_open}
     violations = []
     known_lines = []
     for oid, msgs in failed.items():
